@@ -1256,7 +1256,7 @@ func (r *Resolver) addSubscription(triggerID uint64, add *addSubscription) error
 			for _, sub := range trig.snapshotSubscriptions() {
 				sub.writeError(r.errorFormatter, sub.ctx, err, sub.resolve.Response)
 			}
-			r.doneTriggerFromUpdater(triggerID)
+			r.doneTriggerFromUpdater(triggerID, trig.updater)
 			return
 		}
 
@@ -1290,11 +1290,18 @@ func (r *Resolver) markTriggerInitialized(triggerID uint64) {
 
 // doneTriggerFromUpdater performs cleanup for a trigger from a datasource/updater goroutine.
 // It detaches the trigger, runs done toClose (close completed channels), and cancels the trigger context.
-func (r *Resolver) doneTriggerFromUpdater(triggerID uint64) {
+func (r *Resolver) doneTriggerFromUpdater(triggerID uint64, updater *subscriptionUpdater) {
 	if r.options.Debug {
 		fmt.Printf("resolver:trigger:shutdown:%d\n", triggerID)
 	}
 	r.mu.Lock()
+	if trig, ok := r.triggers[triggerID]; ok && trig.updater != updater {
+		// The trigger registered under this id belongs to a later generation (same input,
+		// subscribed again after this updater's trigger was removed): a late Done() of the
+		// old source must not tear it down.
+		r.mu.Unlock()
+		return
+	}
 	res := r.detachTriggerLocked(triggerID)
 	if r.reporter != nil {
 		r.reporter.SubscriptionCountDec(res.removed)
@@ -2004,7 +2011,7 @@ func (s *subscriptionUpdater) Done() {
 	if s.debug {
 		fmt.Printf("resolver:subscription_updater:done:%d\n", s.triggerID)
 	}
-	s.resolver.doneTriggerFromUpdater(s.triggerID)
+	s.resolver.doneTriggerFromUpdater(s.triggerID, s)
 }
 
 func (s *subscriptionUpdater) CloseSubscription(id SubscriptionIdentifier) {
